@@ -4,7 +4,7 @@ import itertools
 import math
 
 from ..index import u, call_name, call_attr, walk_local, base_name
-from .. import flow
+from .. import flow, interp
 from ..fold import try_fold
 from ..util import stmts_with_env, calls_with_env, assignments_to, single_def, kwarg, param_names
 from .common import method, unconditional_in, atom_text
@@ -144,6 +144,8 @@ def run(ck):
     events = []
     for st in cfc.body:
         if isinstance(st, ast.Expr) and isinstance(st.value, ast.Constant):
+            continue
+        if interp._is_log_stmt(st):
             continue
         if isinstance(st, ast.Assign) and isinstance(st.targets[0], ast.Name) and isinstance(st.value, ast.Call) and call_name(st.value) == 'compute_decay':
             mat = st.targets[0].id
